@@ -80,10 +80,12 @@ var bgSpawned, bgDone, bgParked int64
 // the client library calls the user's handlers in a goroutine of its own (wired.go: `go its.callHandlers`): counted exactly
 var hSpawned, hDone int64
 var bgOnSpawn atomic.Value // func(): called in the request handler right before its post-push goroutine starts
+var npParkFn atomic.Value  // func() chan struct{}: same, for a client's delivery goroutine at `client.needpush.read`
 var bgParkFn atomic.Value  // func() chan struct{}: the channel the next goroutine reaching `beforeSnapshot` parks on (or nil)
 
 func installBgHook() {
 	bgParkFn.Store((func() chan struct{})(nil))
+	npParkFn.Store((func() chan struct{})(nil))
 	bgOnSpawn.Store((func())(nil))
 	verifhook.SetHook(func(p string) {
 		switch p {
@@ -98,6 +100,13 @@ func installBgHook() {
 			atomic.AddInt64(&hSpawned, 1)
 		case "client.handlers.done":
 			atomic.AddInt64(&hDone, 1)
+		case "client.needpush.read":
+			// a delivery goroutine of a realtime client has just read "is anything left to push?"
+			if f, ok := npParkFn.Load().(func() chan struct{}); ok && f != nil {
+				if ch := f(); ch != nil {
+					<-ch
+				}
+			}
 		case "server.postpush.beforeSnapshot":
 			if f, ok := bgParkFn.Load().(func() chan struct{}); ok && f != nil {
 				if ch := f(); ch != nil {
@@ -706,6 +715,117 @@ func (w *sworld) stepPatch(col, key string, target interface{}) (J, J, bool) {
 		}
 	}
 	return cmd, obs, hung
+}
+
+// stepPatchPair: two REST patches of one key that OVERLAP: the first is stopped at its commit point (it holds the patch lock and
+// the push lock of the key), the second arrives meanwhile and has to wait; then the first is released.  One-at-a-time semantics:
+// patch 1, then patch 2 computed against the document patch 1 left.  Emits two `patch` steps in that order.
+func (w *sworld) stepPatchPair(col, key string, t1, t2 interface{}, emit func(J, J, bool) bool) bool {
+	before := w.storeJ()
+	nb := len(before["operations"].([]interface{}))
+	type res struct {
+		rpc  int
+		json interface{}
+		done chan struct{}
+	}
+	call := func(target interface{}, r *res) {
+		defer close(r.done)
+		defer func() { _ = recover() }()
+		js, _ := json.Marshal(target)
+		ctx, cancel := context.WithCancel(context.Background())
+		out, err := w.kit.Service.PatchDocument(ctx, &model.PatchMessage{Collection: col, Key: key, Json: string(js)})
+		cancel()
+		r.rpc = rpcCode(err)
+		if out != nil {
+			var v interface{}
+			_ = json.Unmarshal([]byte(out.Json), &v)
+			r.json = v
+		}
+	}
+	r1, r2 := &res{done: make(chan struct{})}, &res{done: make(chan struct{})}
+	w.out(J{"k": "intent", "of": "patch", "col": col, "key": key, "pair": true}, J{})
+	w.kit.Mongo.SetGate(func(cr memmongo.CmdRecord) bool { return cr.Name == "update" && cr.Coll == "-_-Datatypes" })
+	go call(t1, r1)
+	for t := 0; t < 20000 && len(w.kit.Mongo.Held()) == 0; t++ {
+		select {
+		case <-r1.done:
+			t = 20000
+		default:
+			time.Sleep(200 * time.Microsecond)
+		}
+	}
+	w.kit.Mongo.SetGate(nil)
+	// operations are inserted before the datatype record is updated: what is stored now beyond nb is patch 1's
+	n1 := len(w.storeJ()["operations"].([]interface{}))
+	go call(t2, r2)
+	time.Sleep(60 * time.Millisecond)
+	// patch 2 is stopped at ITS commit point in turn, until the background snapshot update that patch 1 started has finished:
+	// the order the one-at-a-time reading has (otherwise the two updaters race, which is legitimate but not what is compared here)
+	var armed int32 = 1
+	w.kit.Mongo.SetGate(func(cr memmongo.CmdRecord) bool {
+		return cr.Name == "update" && cr.Coll == "-_-Datatypes" && atomic.CompareAndSwapInt32(&armed, 1, 0)
+	})
+	w.kit.Mongo.ReleaseAll()
+	hung := false
+	select {
+	case <-r1.done:
+	case <-time.After(20 * time.Second):
+		hung = true
+	}
+	for t := 0; t < 25000 && atomic.LoadInt64(&bgSpawned) != atomic.LoadInt64(&bgDone); t++ {
+		time.Sleep(200 * time.Microsecond)
+	}
+	w.kit.Mongo.SetGate(nil)
+	w.kit.Mongo.ReleaseAll()
+	select {
+	case <-r2.done:
+	case <-time.After(20 * time.Second):
+		hung = true
+	}
+	time.Sleep(2 * time.Millisecond)
+	w.waitBackground()
+	notifs := w.notifs()
+	after := w.storeJ()
+	ops := after["operations"].([]interface{})
+	// the temporary replicas' ids: patch 1's operations are ops[nb:n1], patch 2's the rest
+	cuidOf := func(from, to int) (string, string) {
+		if to > len(ops) {
+			to = len(ops)
+		}
+		for _, o := range ops[from:to] {
+			oj := o.(J)
+			if id, ok := oj["op"].(J)["id"].([]interface{}); ok && len(id) == 4 {
+				return fmt.Sprint(oj["duid"]), fmt.Sprint(id[2])
+			}
+		}
+		return "", ""
+	}
+	var duids, cuids [2]string
+	duids[0], cuids[0] = cuidOf(nb, n1)
+	duids[1], cuids[1] = cuidOf(n1, len(ops))
+	var nsplit [2][]interface{}
+	nsplit[0], nsplit[1] = []interface{}{}, []interface{}{}
+	for _, n := range notifs {
+		if cuids[0] != "" && fmt.Sprint(n.(J)["cuid"]) == cuids[0] {
+			nsplit[0] = append(nsplit[0], n)
+		} else {
+			nsplit[1] = append(nsplit[1], n)
+		}
+	}
+	for i, pr := range []struct {
+		t interface{}
+		r *res
+	}{{t1, r1}, {t2, r2}} {
+		cmd := J{"k": "patch", "col": col, "key": key, "json": pr.t, "duid": duids[i], "cuid": cuids[i], "pair": i + 1}
+		obs := J{"rpc": pr.r.rpc, "json": pr.r.json, "notifs": nsplit[i]}
+		if hung {
+			obs["hang"] = true
+		}
+		if emit(cmd, obs, hung) {
+			return true
+		}
+	}
+	return false
 }
 
 // --- canonical dump of the store ------------------------------------------------------------
